@@ -285,6 +285,9 @@ func runFamilyAll(r *Reporter, prop string, runs []famRun, configs func(c *ProgC
 		o := TLCOpts{Module: fr.Module, Cfg: famCfg(fr.Consts), Simulate: fr.Simulate, Depth: fr.Depth, Seed: seed*1000 + fr.SeedOff}
 		if prop == "C12" {
 			o.Env = map[string]string{"VERIF_CYC4": "1"}
+			if tier == "thorough" {
+				o.Env["VERIF_CYC4"] = "2"
+			}
 		}
 		st := streamCases(r, o, 16, func(c *ProgCase) {
 			r.Eval(c.Key(), nontrivial == nil || nontrivial(c))
